@@ -16,6 +16,8 @@ def fuzz(pkg, target, secs, parallel=8):
 CHECKS = {
     "C01": {"units": [rapid("csyncx", "TestC01", 10000, 100000)]},
     "C02": {"units": [rapid("csyncx", "TestC02", 10000, 100000)]},
+    "C03": {"units": [rapid("bcastx", "TestC03", 10000, 100000)]},
+    "C15": {"units": [rapid("ccontx", "TestC15", 10000, 80000)]},
     "C19": {"units": [
         rapid("codecx", "TestC19Pad", 20000, 60000, 4),
         rapid("codecx", "TestC19Unpad", 20000, 60000, 4),
